@@ -42,18 +42,18 @@ Proof.
     exists (o :: more). rewrite Hm, <- app_assoc. cbn [app length]. rewrite Hl. split; reflexivity.
 Qed.
 
-Lemma child_need_gen sc (l : list (nat * pitem)) d a n args sh T' sub :
-  In d l -> snd d = PDown a n args sh T' sub ->
-  (pt_need sc sub <=
+Lemma child_need_gen sc (l : list (nat * pitem)) d :
+  In d l ->
+  (sub_need sc (snd d) <=
    (fix go (l : list (nat * pitem)) : nat :=
       match l with
       | [] => O
-      | (_, it) :: r => Nat.max (match it with PDown _ _ _ _ _ sub => pt_need sc sub | PKeep _ => O end) (go r)
+      | (_, it) :: r => Nat.max (sub_need sc it) (go r)
       end) l)%nat.
 Proof.
-  intros Hd Hs. induction l as [|[t it] l IH]; [destruct Hd|].
+  intros Hd. induction l as [|[t it] l IH]; [destruct Hd|].
   destruct Hd as [<-|Hd].
-  - cbn [snd] in Hs. subst it. apply Nat.le_max_l.
+  - cbn [snd]. apply Nat.le_max_l.
   - eapply Nat.le_trans; [apply IH; exact Hd|apply Nat.le_max_r].
 Qed.
 
@@ -65,6 +65,7 @@ Section PSStep.
   Variable tn : bool.
   Variable decls : list (name * list name).
   Variable rdecls : list rdecl.
+  Variable ab : bool.
   Variable k : nat.
 
   Notation vars := (pvars vdsM supM).
@@ -74,14 +75,15 @@ Section PSStep.
   Hypothesis Hnr : forallb (fun vd => not_repr (vd_name vd)) vdsM = true.
   Hypothesis Hwfs : forallb (config_wf_b sc) subs = true.
   Hypothesis Hc : univ3_contract_b sc subs decls rdecls U = true.
-  Hypothesis HFL : FL_at U sc subs vdsM supM f2 kq tn decls rdecls k.
+  Hypothesis HFL : FL_at U sc subs vdsM supM f2 kq tn decls rdecls ab k.
+  Hypothesis HFA : FA_at U sc subs vdsM supM f2 kq tn decls rdecls ab k.
 
   (* ---- one position ---- *)
   Variables (T : name) (e : entity) (p : list pel).
   Variables (items : list (nat * pitem)) (fetches : list (fetch3)).
   Hypothesis HeU : In e U.
   Hypothesis HeT : en_type e = T.
-  Hypothesis Hst : pt_static_b sc subs [] vdsM supM kq decls rdecls (S k) T (PT items fetches) = true.
+  Hypothesis Hst : pt_static_b sc subs [] vdsM supM kq ab decls rdecls (S k) T (PT items fetches) = true.
   Hypothesis Hneed : (pt_need sc (PT items fetches) <= f2)%nat.
 
   Notation fld3 := (nat * pitem)%type.
@@ -94,8 +96,9 @@ Section PSStep.
     match snd d with
     | PKeep _ => r
     | PDown a n args sh T' sub => tr3 U sc subs vdsM supM f2 tn k (response_name a n) sh T' sub r
+    | PAbs a n args sh T' csel rsel alts => tr3a U sc subs vdsM supM f2 tn k (response_name a n) sh alts r
     end.
-  Definition hasf_p (d : fld3) : bool := match snd d with PKeep _ => false | PDown _ _ _ _ _ _ => true end.
+  Definition hasf_p (d : fld3) : bool := match snd d with PKeep _ => false | _ => true end.
   Definition part_p (t : nat) : list fld3 := filter (fun d => Nat.eqb (fst d) t) items.
   Definition A_p (t : nat) : list selection := map (fun d => item_proj (snd d)) (part_p t).
   Definition ks_p (t : nat) : list name := flat_map (keys_of t) (filter (deps_on t) fetches).
@@ -112,7 +115,7 @@ Section PSStep.
     forallb (fun ti : fld3 => Nat.leb (fst ti) (length fetches)) items = true /\
     forallb (fun ti : fld3 => item_unaliased (fetch_keys fetches) (snd ti)) items = true /\
     fetches_static_b sc subs [] vdsM supM kq decls rdecls T items fetches 1%nat fetches = true /\
-    forallb (fun ti : fld3 => item_static_b sc subs [] vdsM supM kq decls rdecls k T (snd ti)) items = true.
+    forallb (fun ti : fld3 => item_static_b sc subs [] vdsM supM kq ab decls rdecls k T (snd ti)) items = true.
   Proof.
     pose proof Hst as H. cbn [pt_static_b] in H.
     apply andb_true_iff in H. destruct H as [H H7].
@@ -128,7 +131,7 @@ Section PSStep.
     plain_field (item_proj (snd d)) = true /\ plain_field (item_client (snd d)) = true.
   Proof.
     intros Hd. destruct st_parts as (_ & _ & _ & _ & _ & _ & Hit). rewrite forallb_forall in Hit.
-    destruct (item_static_plain sc subs vdsM supM kq decls rdecls k T (snd d) (Hit d Hd)) as [(a & n & args & ss & ->) (a' & n' & args' & ss' & ->)].
+    destruct (item_static_plain sc subs vdsM supM kq ab decls rdecls k T (snd d) (Hit d Hd)) as [(a & n & args & ss & ->) (a' & n' & args' & ss' & ->)].
     split; reflexivity.
   Qed.
 
@@ -136,7 +139,7 @@ Section PSStep.
   Proof.
     apply Forall_forall. intros s Hs. unfold A_p in Hs. apply in_map_iff in Hs. destruct Hs as (d & <- & Hd).
     apply filter_In in Hd. destruct st_parts as (_ & _ & _ & _ & _ & _ & Hit). rewrite forallb_forall in Hit.
-    apply (item_static_plain sc subs vdsM supM kq decls rdecls k T (snd d) (Hit d (proj1 Hd))).
+    apply (item_static_plain sc subs vdsM supM kq ab decls rdecls k T (snd d) (Hit d (proj1 Hd))).
   Qed.
 
   Lemma item_proj_key_p d : In d items -> sel_key (item_proj (snd d)) = key3 d.
@@ -153,7 +156,7 @@ Section PSStep.
     (fix go (l : list (nat * pitem)) : nat :=
        match l with
        | [] => O
-       | (_, it) :: r => Nat.max (match it with PDown _ _ _ _ _ sub => pt_need sc sub | PKeep _ => O end) (go r)
+       | (_, it) :: r => Nat.max (sub_need sc it) (go r)
        end) items.
   Lemma pt_need_unfold :
     pt_need sc (PT items fetches) =
@@ -306,7 +309,7 @@ Section PSStep.
     destruct st_parts as (_ & _ & _ & _ & Hun & _). rewrite forallb_forall in Hun. specialize (Hun d Hd).
     unfold item_unaliased in Hun. rewrite (item_proj_key_p d Hd) in Hk. unfold key3 in Hk.
     apply mem_bytes_In in Hk. rewrite Hk in Hun. cbn [negb orb] in Hun.
-    destruct (snd d) as [s|a n args sh T' sub]; [|discriminate]. destruct s as [a n args dirs ss| |]; try discriminate.
+    destruct (snd d) as [s|a n args sh T' sub|a n args sh T' csel rsel alts]; [|discriminate|discriminate]. destruct s as [a n args dirs ss| |]; try discriminate.
     cbn [item_proj]. apply bytes_eqb_eq in Hun. exact Hun.
   Qed.
 
@@ -480,7 +483,7 @@ Section PSStep.
       assert (Hreqs : reqs_covered e (src_proj j items fetches) ks = true)
         by (apply (reqs_static_covered sc decls rdecls T _ ks e Hrq e_contract HeT)).
       assert (Hnsp : sels_nospread (src_proj j items fetches) = true)
-        by (apply (proj1 (static_nospread sc subs vdsM supM kq decls rdecls (S k)) T (PT items fetches) Hst j)).
+        by (apply (proj1 (static_nospread sc subs vdsM supM kq ab decls rdecls (S k)) T (PT items fetches) Hst j)).
       assert (Hfuel : (fuel_bound sc (src_proj j items fetches) + 10 <= f2)%nat).
       { destruct need_parts as (_ & _ & H & _). eapply Nat.le_trans; [|exact H].
         assert (Hin : In j (seq 1 (length fetches))) by (apply in_seq; clear -Hjle; unfold j in *; lia).
@@ -532,7 +535,8 @@ Section PSStep.
     unfold a_of_p, guard3, key3.
     destruct (item_proj (snd d)) as [a n args [|? ?] ss| |] eqn:Ep; cbn [plain_field]; try (left; eexists; reflexivity).
     assert (Hkk : item_key (snd d) = response_name a n).
-    { destruct (snd d) as [s|a' n' args' sh T' sub]; cbn [item_proj] in Ep; [subst s; reflexivity|injection Ep as <- <- _ _; reflexivity]. }
+    { destruct (snd d) as [s|a' n' args' sh T' sub|a' n' args' sh T' csel rsel alts]; cbn [item_proj] in Ep;
+        [subst s; reflexivity|injection Ep as <- <- _ _; reflexivity|injection Ep as <- <- _ _; reflexivity]. }
     rewrite Hkk. unfold mex.
     destruct (single_field_shape sc U [] vars Mono f2 a n args ss T {| ov_ent := e; ov_repr := None |} (q_of (fst d))) as [[e0 H]|[v [e0 H]]];
       [left; exists e0; exact H|right; exists v, e0; exact H].
@@ -542,7 +546,8 @@ Section PSStep.
     unfold m_of_p, guard3, key3.
     destruct (item_client (snd d)) as [a n args [|? ?] ss| |] eqn:Ep; cbn [plain_field]; try (left; eexists; reflexivity).
     assert (Hkk : item_key (snd d) = response_name a n).
-    { destruct (snd d) as [s|a' n' args' sh T' sub]; cbn [item_client] in Ep; [subst s; reflexivity|injection Ep as <- <- _ _; reflexivity]. }
+    { destruct (snd d) as [s|a' n' args' sh T' sub|a' n' args' sh T' csel rsel alts]; cbn [item_client] in Ep;
+        [subst s; reflexivity|injection Ep as <- <- _ _; reflexivity|injection Ep as <- <- _ _; reflexivity]. }
     rewrite Hkk. unfold mex.
     destruct (single_field_shape sc U [] vars Mono f2 a n args ss T {| ov_ent := e; ov_repr := None |} p) as [[e0 H]|[v [e0 H]]];
       [left; exists e0; exact H|right; exists v, e0; exact H].
@@ -560,7 +565,7 @@ Section PSStep.
     - intros H. injection H as <-. discriminate.
   Qed.
 
-  Lemma child_need_le d a n args sh T' sub : In d items -> snd d = PDown a n args sh T' sub -> (pt_need sc sub <= children_need)%nat.
+  Lemma child_need_le d : In d items -> (sub_need sc (snd d) <= children_need)%nat.
   Proof. apply child_need_gen. Qed.
 
   Lemma item_need_p d : In d items -> (item_need sc (snd d) <= f2)%nat.
@@ -584,9 +589,8 @@ Section PSStep.
     assert (H2 : (fuel_bound sc [item_client (snd d)] + 10 <= f2)%nat).
     { eapply Nat.le_trans; [|apply need_client]. apply Nat.add_le_mono_r. apply fuel_bound_le_size.
       rewrite pt_client_eq. apply sels_size_in. apply in_map_iff. exists d. split; [reflexivity|exact Hd]. }
-    assert (H3 : (match snd d with PDown _ _ _ _ _ sub => pt_need sc sub | PKeep _ => O end <= f2)%nat).
-    { destruct (snd d) as [s|a n args sh T' sub] eqn:Es; [apply Nat.le_0_l|].
-      eapply Nat.le_trans; [apply (child_need_le d a n args sh T' sub Hd Es)|apply need_parts]. }
+    assert (H3 : (sub_need sc (snd d) <= f2)%nat).
+    { eapply Nat.le_trans; [apply (child_need_le d Hd)|apply need_parts]. }
     apply Nat.max_lub; [exact H1|apply Nat.max_lub; [exact H2|exact H3]].
   Qed.
 
@@ -595,9 +599,10 @@ Section PSStep.
     intros Hd Hn. rewrite (a_of_items d Hd), (m_of_items d Hd). unfold tr_of_p.
     pose proof (item_need_p d Hd) as Hneedd.
     destruct st_parts as (_ & _ & _ & _ & _ & _ & Hit). rewrite forallb_forall in Hit. specialize (Hit d Hd).
-    destruct (snd d) as [s|a n args sh T' sub] eqn:Ei.
+    destruct (snd d) as [s|a n args sh T' sub|a n args sh T' csel rsel alts] eqn:Ei.
     - cbn [item_proj item_client]. unfold mex. apply exec_path_indep'.
     - cbn [item_proj item_client]. apply (HFL T e a n args sh T' sub p (q_of (fst d)) Hit HeU HeT Hneedd).
+    - cbn [item_proj item_client]. apply (HFA T e a n args sh T' csel rsel alts p (q_of (fst d)) Hit HeU HeT Hneedd).
   Qed.
 
   Lemma noof_m_p d : In d items -> no_oof (snd (m_of_p d)) = true.
@@ -605,7 +610,7 @@ Section PSStep.
     intros Hd. rewrite (m_of_items d Hd). unfold mex. apply exec_sels_fuel_sufficient.
     - cbn [sels_nospread forallb]. rewrite andb_true_r.
       destruct st_parts as (_ & _ & _ & _ & _ & _ & Hit). rewrite forallb_forall in Hit.
-      apply (proj2 (static_nospread sc subs vdsM supM kq decls rdecls k) T (snd d) (Hit d Hd)).
+      apply (proj2 (static_nospread sc subs vdsM supM kq ab decls rdecls k) T (snd d) (Hit d Hd)).
     - pose proof (item_need_p d Hd) as H. unfold item_need in H.
       apply Nat.max_lub_iff in H. destruct H as [_ H]. apply Nat.max_lub_iff in H. destruct H as [H _]. clear -H. lia.
   Qed.
@@ -619,7 +624,7 @@ Section PSStep.
       assert (Hin : forall d, In d items -> In d items) by auto. revert Hin. generalize items at 1 3 4 as l.
       induction l as [|d l IH]; intros Hin; [reflexivity|]. cbn [fold_right]. rewrite IH; [|intros x Hx; apply Hin; right; exact Hx].
       rewrite (m_of_items d (Hin d (or_introl eq_refl))). reflexivity.
-    - apply (items_plain sc subs vdsM supM kq decls rdecls k T items Hit).
+    - apply (items_plain sc subs vdsM supM kq ab decls rdecls k T items Hit).
     - rewrite (keys_distinct_map_fields (fun ti : fld3 => item_client (snd ti)) key3); [exact Hk|intros d; apply item_client_key].
     - rewrite map_length. pose proof length_items_lt. lia.
   Qed.
@@ -652,14 +657,52 @@ Section PSStep.
 
   (* the model's fetch list is the algebra's *)
   Lemma fetches_ext st :
-    run_fetches (item_fetches (lift U sc subs [] vdsM supM f2 tn k) items) st =
+    run_fetches (item_fetches (lift U sc subs [] vdsM supM f2 tn k) (lifta U sc subs [] vdsM supM f2 tn k) items) st =
     run_fetches (gefs fld3 key3 tr_of_p hasf_p items) st.
   Proof.
     apply run_fetches_ext. clear. induction items as [|d l IH]; [constructor|].
     unfold item_fetches, gefs in *. cbn [flat_map]. unfold hasf_p at 1, ffun, key3 at 1 2 3, tr_of_p at 1.
-    destruct (snd d) as [s|a n args sh T' sub]; cbn [app]; [exact IH|].
-    constructor; [|exact IH]. cbn [fst snd item_key]. split; [reflexivity|]. intros v. unfold tr3. cbn [fst snd app].
-    destruct (vres_sres (response_name a n) (lift U sc subs [] vdsM supM f2 tn k sh T' sub v)); reflexivity.
+    destruct (snd d) as [s|a n args sh T' sub|a n args sh T' csel rsel alts]; cbn [app]; [exact IH| |].
+    - constructor; [|exact IH]. cbn [fst snd item_key]. split; [reflexivity|]. intros v. unfold tr3. cbn [fst snd app].
+      destruct (vres_sres (response_name a n) (lift U sc subs [] vdsM supM f2 tn k sh T' sub v)); reflexivity.
+    - constructor; [|exact IH]. cbn [fst snd item_key]. split; [reflexivity|]. intros v. unfold tr3a. cbn [fst snd app].
+      destruct (vres_sres (response_name a n) (lifta U sc subs [] vdsM supM f2 tn k sh alts v)); reflexivity.
+  Qed.
+
+  (* the projection's answer carries the runtime type under __typename when the projection asks for it *)
+  Lemma src0_typename l1 e1 :
+    mex' f2 T e (pt_proj (PT items fetches)) p = (Some l1, e1) ->
+    has_tn_sel (pt_proj (PT items fetches)) = true -> get_member s_typename l1 = JStr T.
+  Proof.
+    rewrite pt_proj_eq. change (mex' f2 T e (src_proj 0 items fetches) p) with (X_p 0).
+    rewrite (src_exec 0 (Nat.le_0_l _)).
+    destruct (Rfold fld3 a_of_p (part_p 0)) as [[la0|] ea0] eqn:ER0; [|discriminate].
+    intros H Htn. injection H as <- <-.
+    pose proof (src_keyvals 0 la0 ea0 (Nat.le_0_l _) ER0) as Hkv.
+    assert (Hpres : existsb (fun kv : bytes * json => bytes_eqb s_typename (fst kv)) (la0 ++ extra_p 0) = true).
+    { unfold has_tn_sel, src_proj in Htn. fold (part_p 0) in Htn. fold (A_p 0) in Htn.
+      apply existsb_exists in Htn. destruct Htn as (s0 & Hs & Hs0).
+      destruct s0 as [[?|] n0 [|? ?] [|? ?] [|? ?]| |]; try discriminate. apply bytes_eqb_eq in Hs0. subst n0.
+      assert (Hm : map fst la0 = map sel_key (A_p 0)).
+      { pose proof ER0 as HR. rewrite <- exec_A in HR. unfold mex in HR. rewrite <- HeT in HR.
+        apply (plain_members sc U vars e (A_p 0) (q_of 0) f2 la0 ea0 (plain_A 0) (distinct_A 0)); [|exact HR].
+        pose proof (need_src 0 (Nat.le_0_l _)). lia. }
+      apply in_app_or in Hs. destruct Hs as [Hs|Hs].
+      - apply existsb_exists.
+        assert (Hk : In s_typename (map fst la0)).
+        { rewrite Hm. apply in_map_iff. exists (SField None s_typename [] [] []). split; [reflexivity|exact Hs]. }
+        apply in_map_iff in Hk. destruct Hk as (kv & Hk & Hkv'). exists kv. split; [apply in_or_app; left; exact Hkv'|].
+        rewrite Hk. apply bytes_eqb_refl.
+      - unfold keys_from in Hs. unfold extra_p. fold (ks_p 0) in Hs.
+        destruct (filter (deps_on 0) fetches) as [|f0 fs0] eqn:Ef; [destruct Hs|].
+        assert (Hp : In s_typename (map fst (la0 ++ added_members e (ks_p 0) (A_p 0)))).
+        { apply key_present; [left; reflexivity|exact Hm]. }
+        apply in_map_iff in Hp. destruct Hp as (kv & Hk & Hkv'). apply existsb_exists. exists kv. split; [exact Hkv'|].
+        rewrite Hk. apply bytes_eqb_refl. }
+    unfold get_member. rewrite (obj_get_uniform s_typename (la0 ++ extra_p 0) (key_val e s_typename)).
+    - unfold key_val. rewrite bytes_eqb_refl, HeT. reflexivity.
+    - intros k' v Hin Hk. apply bytes_eqb_eq in Hk. subst k'. apply (Hkv s_typename v Hin). left. reflexivity.
+    - exact Hpres.
   Qed.
 
   Theorem PS_here :
@@ -667,10 +710,21 @@ Section PSStep.
     | (Some l1, e1) =>
       fst (fill U sc subs [] vdsM supM f2 tn (S k) T (PT items fetches) l1) = fst (mex' f2 T e (pt_client (PT items fetches)) p) /\
       (e1 ++ snd (fill U sc subs [] vdsM supM f2 tn (S k) T (PT items fetches) l1) = [] <->
-       snd (mex' f2 T e (pt_client (PT items fetches)) p) = [])
+       snd (mex' f2 T e (pt_client (PT items fetches)) p) = []) /\
+      (has_tn_sel (pt_proj (PT items fetches)) = true -> get_member s_typename l1 = JStr T)
     | (None, _) => fst (mex' f2 T e (pt_client (PT items fetches)) p) = None
     end.
   Proof.
+    enough (HH : match mex' f2 T e (pt_proj (PT items fetches)) p with
+    | (Some l1, e1) =>
+      (fst (fill U sc subs [] vdsM supM f2 tn (S k) T (PT items fetches) l1) = fst (mex' f2 T e (pt_client (PT items fetches)) p) /\
+      (e1 ++ snd (fill U sc subs [] vdsM supM f2 tn (S k) T (PT items fetches) l1) = [] <->
+       snd (mex' f2 T e (pt_client (PT items fetches)) p) = []))
+    | (None, _) => fst (mex' f2 T e (pt_client (PT items fetches)) p) = None
+    end).
+    { pose proof src0_typename as HT.
+      destruct (mex' f2 T e (pt_proj (PT items fetches)) p) as [[l1|] e1]; [|exact HH].
+      destruct HH as [H1 H2]. split; [exact H1|]. split; [exact H2|]. intros Htn. apply (HT l1 e1 eq_refl Htn). }
     rewrite mono_fold. rewrite pt_proj_eq. change (mex' f2 T e (src_proj 0 items fetches) p) with (X_p 0).
     rewrite (src_exec 0 (Nat.le_0_l _)).
     destruct (Rfold fld3 a_of_p (part_p 0)) as [[la0|] ea0] eqn:ER0.
@@ -678,14 +732,15 @@ Section PSStep.
     set (l1 := la0 ++ extra_p 0).
     assert (HnoofM : no_oof (snd (Mfold fld3 m_of_p items)) = true).
     { rewrite <- mono_fold. unfold mex. apply exec_sels_fuel_sufficient.
-      - apply (proj2 (proj1 (static_nospread sc subs vdsM supM kq decls rdecls (S k)) T (PT items fetches) Hst 0%nat)).
+      - apply (proj2 (proj1 (static_nospread sc subs vdsM supM kq ab decls rdecls (S k)) T (PT items fetches) Hst 0%nat)).
       - pose proof need_client as H. clear -H. lia. }
     assert (Hgen : sres_weq (run_fetches (gefs fld3 key3 tr_of_p hasf_p items) (Rfold fld3 a_of_p items)) (Mfold fld3 m_of_p items)).
     { apply (gen_alg fld3 key3 a_of_p m_of_p tr_of_p hasf_p shape_a_p shape_m_p none_a_p none_m_p).
       - intros d e0. unfold tr_of_p. destruct (snd d); reflexivity.
-      - intros d o e0. unfold tr_of_p. destruct (snd d); [cbn [fst snd]; tauto|].
-        unfold tr3. destruct o as [[|[k0 v] [|? ?]]|]; cbn [fst snd app]; try tauto. rewrite app_nil_iff. tauto.
-      - intros d Hh r. unfold tr_of_p, hasf_p in *. destruct (snd d); [reflexivity|discriminate].
+      - intros d o e0. unfold tr_of_p. destruct (snd d); [cbn [fst snd]; tauto| |].
+        + unfold tr3. destruct o as [[|[k0 v] [|? ?]]|]; cbn [fst snd app]; try tauto. rewrite app_nil_iff. tauto.
+        + unfold tr3a. destruct o as [[|[k0 v] [|? ?]]|]; cbn [fst snd app]; try tauto. rewrite app_nil_iff. tauto.
+      - intros d Hh r. unfold tr_of_p, hasf_p in *. destruct (snd d); [reflexivity|discriminate|discriminate].
       - apply Forall_forall. intros d Hd. apply wlink_p. exact Hd.
       - apply st_parts.
       - exact HnoofM. }
@@ -731,14 +786,15 @@ Section PSStep.
 End PSStep.
 
 (* the POSITION step *)
-Theorem PS_step U sc subs vdsM supM eQ f2 kq tn decls rdecls k :
+Theorem PS_step U sc subs vdsM supM eQ f2 kq tn decls rdecls ab k :
   find_entity U (s_query sc) [] = Some eQ ->
   forallb (fun vd => not_repr (vd_name vd)) vdsM = true ->
   forallb (config_wf_b sc) subs = true ->
   univ3_contract_b sc subs decls rdecls U = true ->
-  FL_at U sc subs vdsM supM f2 kq tn decls rdecls k ->
-  PS_at U sc subs vdsM supM f2 kq tn decls rdecls (S k).
+  FL_at U sc subs vdsM supM f2 kq tn decls rdecls ab k ->
+  FA_at U sc subs vdsM supM f2 kq tn decls rdecls ab k ->
+  PS_at U sc subs vdsM supM f2 kq tn decls rdecls ab (S k).
 Proof.
-  intros HeQ Hnr Hwfs Hc HFL T [items fetches] e p Hst HeU HeT Hneed.
-  apply (PS_here U sc subs vdsM supM eQ f2 kq tn decls rdecls k HeQ Hnr Hwfs Hc HFL T e p items fetches HeU HeT Hst Hneed).
+  intros HeQ Hnr Hwfs Hc HFL HFA T [items fetches] e p Hst HeU HeT Hneed.
+  apply (PS_here U sc subs vdsM supM eQ f2 kq tn decls rdecls ab k HeQ Hnr Hwfs Hc HFL HFA T e p items fetches HeU HeT Hst Hneed).
 Qed.
